@@ -376,7 +376,7 @@ impl Property for C08 {
     }
     fn budget(&self, tier: Tier) -> Budget {
         match tier {
-            Tier::Quick => Budget { release: 1_500_000, dbg: 500_000, workers: 8 },
+            Tier::Quick => Budget { release: 4_500_000, dbg: 1_500_000, workers: 8 },
             Tier::Thorough => Budget { release: 48_000_000, dbg: 12_000_000, workers: 16 },
         }
     }
